@@ -103,9 +103,18 @@ func main() {
 			continue
 		}
 		changed := false
+		// enclosing returns the name of the function declaration containing pos
+		enclosing := func(pos token.Pos) string {
+			for _, d := range f.Decls {
+				if fd, ok := d.(*ast.FuncDecl); ok && fd.Pos() <= pos && pos < fd.End() {
+					return fd.Name.Name
+				}
+			}
+			return "-"
+		}
 		siteLit := func(n ast.Node, what string) ast.Expr {
 			pos := p.Fset.Position(n.Pos())
-			return &ast.BasicLit{Kind: token.STRING, Value: strconv.Quote(fmt.Sprintf("%s:%d:%s", filepath.Base(pos.Filename), pos.Line, what))}
+			return &ast.BasicLit{Kind: token.STRING, Value: strconv.Quote(fmt.Sprintf("%s:%d:%s:%s", filepath.Base(pos.Filename), pos.Line, enclosing(n.Pos()), what))}
 		}
 		hook := func(name string) ast.Expr {
 			return &ast.SelectorExpr{X: ast.NewIdent("vhook"), Sel: ast.NewIdent(name)}
